@@ -79,6 +79,7 @@ _reg("C13", engine="grofile", level="exploration",
 
 _reg("C14", engine="grofile", level="fault_enumeration",
      runs={"quick": 4800, "thorough": 100000}, block=20,
+     budget={"quick": 300, "thorough": 2400},
      technique="crash-point enumeration on the file seam's operation log (stop before every write/seek/close, torn writes, byte truncation), each image opened by the real reader",
      level_text=("Per sampled writer session EVERY crash point at operation granularity is enumerated (before each record, "
                  "before close, between the seek / count back-fill / seek / box / newline steps of close), every torn prefix "
@@ -197,6 +198,7 @@ _reg("C03", engine="xmap", level="exploration",
 
 _reg("C04", engine="xmap", level="exploration",
      runs={"quick": 3200, "thorough": 80000}, block=16,
+     budget={"quick": 300, "thorough": 2400},
      technique="seeded operation histories (calls, repeats, rejected arguments, mutation of construction molecules / results / arguments) on one map, checked after every operation against a freshly built map, a reference model and bitwise snapshots",
      level_text=("Sampled histories of 10..32 operations on one map: calls on construction / rigid / deformed copies and on "
                  "separately built instances of the species, repeats of earlier calls, rejected arguments (other name, other "
@@ -304,6 +306,7 @@ _reg("C08", level="exploration",
 
 _reg("C09", engine="mc", level="exploration",
      runs={"quick": 4800, "thorough": 160000}, block=16,
+     budget={"quick": 300, "thorough": 2400},
      technique="deterministic simulation of the Monte-Carlo loop: every draw comes from the random seam, every component call is observed, and a reference model of the loop's bookkeeping is advanced event by event (refinement check per step)",
      level_text=("Per iteration, through the seams only: the move-type draw, the proposal handed to the measure, its value, the two "
                  "energies given to the acceptance test, the uniform number it consumed and its answer, the rotation matrix / the "
@@ -355,6 +358,7 @@ _reg("C17", level="exploration",
 
 _reg("C12", engine="grosys", level="exploration",
      runs={"quick": 16000, "thorough": 400000}, block=100,
+     budget={"quick": 300, "thorough": 2400},
      technique="seeded scheduler over cooperative consumers (live generators + random access) of one SystemGro that share a single file cursor; every returned residue checked against an independent parse",
      level_text=("Sampled files (1..400 residues of 1..12 atoms; repeated, alternating and random residue kinds; equal names with "
                  "different sizes; boundaries where only the number or only the name changes; equal consecutive (number, name) "
